@@ -12,7 +12,7 @@ TITLE = "pickled / interrupted searches resume faithfully"
 COQ_PROPS = "Props/C17.v"
 COQ_RUN = ("Searcher.SlicingRun", "run_c17")
 GEN_TARGETS = []
-N = {"quick": 320, "thorough": 6000}
+N = {"quick": 3000, "thorough": 15000}
 CASE_CPU_SECONDS = 200
 RULE = (
     "a universe (word universe with any pack, or random table universe), a rule database (RuleDB, "
